@@ -54,7 +54,7 @@ HARDENING = {
                       "is value-taking, kind wbool), NewOption(logging Value); the CmdLine from New or the one "
                       "AddCommand/RunCommand hands to a sub-command (also via the built-in help command); setters in "
                       "both orders, repeated SetSingle/SetName; RunCommand error returns; "
-                      "New(true/false), NewOption, NewGeneralOption (28 pointer types), SetSingle, SetName, SetArg, "
+                      "New(true/false), NewOption, NewGeneralOption (the 28 supported pointer types, and *[]float32 / *[]float64 which Set refuses as unhandled), SetSingle, SetName, SetArg, "
                       "SetDefault, SetUsage, Parse (also twice), FatalMsg, FatalError, FatalIfError(nil / error), "
                       "SetWriter (stdout, failing writer), Write; DisplayUsage + Options.Len/Less/Swap run on the help "
                       "path (exit status and the presence of usage text are observed, not its wording)",
